@@ -67,6 +67,9 @@ pub struct Profile {
     /// weight of unused declarations whose right-hand side misuses a dynamically typed value
     /// (reported runtime error, not a crash): only for the differential C03 check
     pub w_illtyped_dead: u32,
+    /// weight of "declare a local namesake of a variable that a callable function assigns or
+    /// mutates in an enclosing scope, call it, print the namesake" (lexical vs dynamic binding)
+    pub w_namesake: u32,
 }
 
 impl Profile {
@@ -97,6 +100,7 @@ impl Profile {
             site_tagged: false,
             w_clobber: 2,
             w_illtyped_dead: 0,
+            w_namesake: 0,
         }
     }
     /// strings/arrays flowing through loops, calls, returns, captured reassignment (C02)
@@ -139,6 +143,7 @@ impl Profile {
     pub fn scope() -> Profile {
         Profile {
             name: "scope",
+            w_namesake: 6,
             small_name_pool: true,
             site_tagged: true,
             long_strings: false,
@@ -160,10 +165,26 @@ impl Profile {
             ..Profile::general()
         }
     }
+    /// `scope` with many (nested) arrays and mutations: captured arrays changed through paths
+    /// (`g[i].push(v)`) while a namesake is live in the caller (C04, C05)
+    pub fn scope_arrays() -> Profile {
+        Profile {
+            name: "scope-arrays",
+            w_namesake: 10,
+            w_call: 14,
+            w_arrmut: 28,
+            w_array_ty: 55,
+            w_shout: 14,
+            dump_arrays: true,
+            trap_pm: 0,
+            ..Profile::scope()
+        }
+    }
     /// copy / mutate histories over arrays (C05)
     pub fn arrays() -> Profile {
         Profile {
             name: "arrays",
+            w_namesake: 5,
             w_clobber: 12,
             w_make: 16,
             w_assign: 14,
@@ -206,6 +227,9 @@ pub struct Features {
     pub array_copies: u32,
     pub clobber_patterns: u32,
     pub illtyped_dead: u32,
+    pub captured_array_mutations: u32,
+    pub captured_path_mutations: u32,
+    pub namesake_calls: u32,
 }
 
 #[derive(Debug, Clone)]
@@ -1004,6 +1028,7 @@ impl Gen<'_> {
 
     fn stmt_array_mutation(&mut self, out: &mut Block) {
         let cands = self.vars_of(&|v| matches!(v.ty, Ty::Arr(_)) && !v.reserved);
+        let cands = self.prefer_captured(cands);
         if cands.is_empty() {
             return self.stmt_make(out);
         }
@@ -1022,6 +1047,12 @@ impl Gen<'_> {
             (base, v.ty.clone(), v.min_len)
         };
         let Ty::Arr(telem) = tty else { unreachable!() };
+        if self.scopes[r.0].fn_level < self.fn_level() {
+            self.features.captured_array_mutations += 1;
+            if nested {
+                self.features.captured_path_mutations += 1;
+            }
+        }
         let w_idx = if tmin == 0 { 4 } else { 38 };
         match self.tape.weighted(&[35, 15, 12, w_idx]) {
             0 => {
@@ -1167,6 +1198,49 @@ impl Gen<'_> {
         }
         // and the variable afterwards
         out.push(Stmt::Expr(Expr::call("shout", vec![Expr::Var(v.name)])));
+    }
+
+    /// `make g get <value>` for a name `g` that a callable function (defined in an enclosing block)
+    /// assigns or mutates in an enclosing scope, then the call, then `shout(g)`: names resolve
+    /// lexically, so the callee changes the outer `g` and the local namesake keeps its value.
+    fn stmt_namesake_call(&mut self, out: &mut Block) {
+        let cur = self.scopes.len() - 1;
+        let mut cands: Vec<(usize, usize, bool, usize, String)> = Vec::new();
+        for (si, fi, dec) in self.callable_funcs(None) {
+            // the function's definition must lie in an enclosing block: a later declaration in
+            // *its own* block would make the binding of its body a matter of ordering
+            if si >= cur {
+                continue;
+            }
+            for (ws, wn) in &self.scopes[si].funcs[fi].writes {
+                if *ws < cur
+                    && !self.scopes[cur].vars.iter().any(|v| v.name == *wn)
+                    && !(self.is_param_of_current_fn(wn) && self.scopes.len() == self.ctx().base_scope + 2)
+                {
+                    cands.push((si, fi, dec, *ws, wn.clone()));
+                }
+            }
+        }
+        if cands.is_empty() {
+            return self.stmt_call(out);
+        }
+        let (si, fi, dec, ws, wn) = cands[self.tape.choose(cands.len())].clone();
+        let Some(ty) = self.scopes[ws].vars.iter().find(|v| v.name == wn).map(|v| v.ty.clone()) else {
+            return self.stmt_call(out);
+        };
+        let e = self.expr(&ty, 0);
+        let min_len = Self::literal_len(&e);
+        out.push(Stmt::Make(wn.clone(), Some(e)));
+        self.declare(wn.clone(), ty, false, min_len);
+        self.features.shadowing_decls += 1;
+        self.features.namesake_calls += 1;
+        let call = self.make_call(si, fi, dec, 0);
+        if self.tape.chance(1, 2) {
+            out.push(Stmt::Expr(Expr::call("shout", vec![call])));
+        } else {
+            out.push(Stmt::Expr(call));
+        }
+        out.push(Stmt::Expr(Expr::call("shout", vec![Expr::Var(wn)])));
     }
 
     /// An unused declaration whose right-hand side raises a *reported* runtime error when it is
@@ -1537,6 +1611,7 @@ impl Gen<'_> {
                 p.w_unused,
                 p.w_clobber,
                 p.w_illtyped_dead,
+                p.w_namesake,
             ];
             match self.tape.weighted(&w) {
                 0 => self.stmt_make(&mut out),
@@ -1563,7 +1638,8 @@ impl Gen<'_> {
                 }
                 10 => self.stmt_unused(&mut out),
                 11 => self.stmt_clobber(&mut out),
-                _ => self.stmt_illtyped_dead(&mut out),
+                12 => self.stmt_illtyped_dead(&mut out),
+                _ => self.stmt_namesake_call(&mut out),
             }
             if dead && self.tape.chance(1, 2) {
                 break;
